@@ -29,7 +29,7 @@ for m in muts:
             env = dict(os.environ, VERIF_REPO=wt)
             if vroot: env["VERIF_ROOT"] = vroot
             t0 = time.time()
-            r = subprocess.run(["/verif/bin/vcheck", "C05", "quick"], env=env, capture_output=True, text=True)
+            r = subprocess.run(["/verif/bin/vcheck", "C05", "quick"] + ([] ), env=env, capture_output=True, text=True)
             keys = sorted(set(l.split("key=",1)[1].split(" : ")[0] for l in r.stdout.splitlines() if "key=" in l and "KNOWN-FINDING" not in l))
             extra = [l for l in r.stdout.splitlines() if "build failed" in l or "inconclusive" in l.lower()]
             print(f"## {m['name']}: exit={r.returncode} wall={time.time()-t0:.0f}s new_keys={keys[:10]} {extra[:3]}")
